@@ -92,6 +92,13 @@ def run(out, tier, seed):
             sigs_all.setdefault(t[1], t[2])
         for t in r.tagged("HIST"):
             cases.append({"id": len(cases), "src": "tlc-exhaustive", "ops": [list(x) for x in t[1]]})
+    cap = 2000 if tier == "quick" else 40000
+    if len(cases) > cap:
+        # the exhaustive set of the larger bound is replayed by sampling (TLC itself has checked all of it on the model)
+        out.extra["histories_enumerated"] = len(cases)
+        cases = rng.sample(cases, cap)
+        for i, c in enumerate(cases):
+            c["id"] = i
     for s, w in sigs_all.items():
         cases.append({"id": len(cases), "src": "witness:" + s, "ops": [list(x) for x in w]})
     nrand = 300 if tier == "quick" else 6000
